@@ -5,7 +5,8 @@ C06 — the SML parser is total and all-or-nothing.
 (arbitrary bytes) it returns — there is no unbounded loop in the model: the lexer takes at most
 `input.length + 1` steps (`lex_bounded`), the parser at most one step per token. The only way
 out other than a normal return is the outcome `.panic` (NewDataMessage refusing), which
-`no_panic_partial` rules out under the lexer invariant stated there. If any error is reported no
+`no_panic` rules out for every input (`total`). Every token and hence every diagnostic carries
+a true position of the input (`positions_true`). If any error is reported no
 message is returned, and if none is reported every parsed message is returned in order
 (`all_or_nothing`, `all_returned`).
 Allocation: the parser never sizes a buffer from a number in the text (the placeholder of D11
@@ -15,6 +16,7 @@ code in an isolated worker by the correspondence run; it is not in the model.
 -/
 import SecsModel.Model.Parser
 import SecsModel.Proofs.Lexer
+import SecsModel.Proofs.NoPanic
 import SecsModel.Generated.Facts
 namespace Secs.C06
 open Secs Secs.Sml Secs.Lex
@@ -89,6 +91,20 @@ theorem positions_true (ual : List Nat) (input : Bytes) (t : Tok) (h : t ∈ lex
     ∃ pre suf, input = pre ++ suf ∧ t.line = 1 + pre.count 10 ∧
       t.col = 1 + (Utf8.runes ((pre.reverse.takeWhile (· != 10)).reverse)).length :=
   lexAll_positions ual input t h
+
+/-- **The parser never panics.** The only constructor call outside a recover is NewDataMessage at
+the end of a message; for every input its arguments are in its domain: stream and function
+clamped, never `W` on an even function, the direction one of the three the lexer produces, the
+name free of white-space runes (the header lexer skips them before a token and ends a name at
+the first one; cutting the name out of the input does not change how its bytes decode). -/
+theorem no_panic (ual : List Nat) (input : Bytes) : parse ual input ≠ .panic :=
+  parse_no_panic ual input
+
+/-- hence every input has a normal outcome: messages and diagnostics -/
+theorem total (ual : List Nat) (input : Bytes) : ∃ msgs errs warns, parse ual input = .done msgs errs warns := by
+  cases h : parse ual input with
+  | done m e w => exact ⟨m, e, w, rfl⟩
+  | panic => exact absurd h (no_panic ual input)
 
 /-- the parser reports a lexing error through a diagnostic, never by a panic: an error token in
 a value position stops the message with a "syntax error" diagnostic -/
